@@ -116,7 +116,8 @@ def write_evidence(ctx, mod, nviol, extra_assumptions=()):
         "wall_s": round(time.time() - ctx.t0, 2),
         "violations": nviol,
     }
-    d = os.path.join(ROOT, "evidence")
+    # experiments on scratch copies / seeded changes must not overwrite the evidence of the real tree
+    d = os.environ.get("VERIF_EVIDENCE_DIR") or os.path.join(ROOT, "evidence")
     os.makedirs(d, exist_ok=True)
     with open(os.path.join(d, ctx.pid + ".json"), "w") as f:
         json.dump(ev, f, indent=1, default=str)
